@@ -126,10 +126,11 @@ func unlockCall(s ast.Stmt) bool {
 
 func (r *rewriter) stmts(list []ast.Stmt) []ast.Stmt {
 	out := make([]ast.Stmt, 0, 2*len(list))
-	prevUnlock := false
+	prevUnlock, prevLock := false, false
 	for _, s := range list {
-		afterUnlock := prevUnlock
+		afterUnlock, afterLock := prevUnlock, prevLock
 		prevUnlock = unlockCall(s)
+		_, _, prevLock = lockCall(s)
 		if r.stmtHook {
 			if se, write, ok := lockCall(s); ok {
 				r.hooked = true
@@ -156,6 +157,9 @@ func (r *rewriter) stmts(list []ast.Stmt) []ast.Stmt {
 			kind := "stmt"
 			if afterUnlock {
 				kind = "unlocked" // the statement right after a lock was given up: where check-then-act windows open
+			}
+			if afterLock {
+				kind = "locked" // the statement right after a lock was taken: a task held back here keeps the lock busy
 			}
 			out = append(out, &ast.ExprStmt{X: hookCall("Hit", newSite(r.fset, r.rel, s.Pos(), r.fn, kind))})
 			if g, ok := s.(*ast.GoStmt); ok {
